@@ -42,12 +42,32 @@ func c04NewPool(kind string, capacity int, interval time.Duration) pool {
 
 // schedule (from the TLC trap counterexample): get(g2) granted ; g1: Inc>cap, Dec, waiters++, Lock,
 // checked_unavailable  |  g2: back_dec, back_broadcast  |  g1: wait_registered ... must still be granted.
-func c04LostWakeup(kind string, trial int) c04Result {
+func c04LostWakeup(kind string, trial int, warm bool) c04Result {
 	interval := 30 * time.Millisecond
 	bound := 3 * time.Second // >= 10x the heartbeat interval, >= 2 s
 	res := c04Result{Scenario: "lost_wakeup_window", Pool: kind, Trial: trial, BoundMs: float64(bound.Milliseconds()), Heartbeat: 30}
 	p := c04NewPool(kind, 1, interval)
 	defer p.stop()
+	if warm {
+		// an earlier life of the pool: it was exhausted once (the slow path and with it the heartbeat were started), drained, and
+		// then sat idle for several heartbeat periods with nobody waiting.  The window below must be rescued all the same.
+		res.Scenario = "lost_wakeup_window_after_idle_period"
+		h := p.get(10)
+		done := make(chan struct{})
+		go func() { e := p.get(10); p.back(e); close(done) }()
+		for i := 0; i < 20000 && p.waiters() == 0; i++ {
+			time.Sleep(100 * time.Microsecond)
+		}
+		time.Sleep(2 * interval)
+		p.back(h)
+		select {
+		case <-done:
+		case <-time.After(bound):
+			res.Resumed = false
+			return res
+		}
+		time.Sleep(6 * interval)
+	}
 	arrived := make(chan struct{}, 1)
 	release := make(chan struct{})
 	var once sync.Once
@@ -192,7 +212,8 @@ func TestVerifC04Pools(t *testing.T) {
 	var all []c04Result
 	for _, kind := range []string{"low_memory", "std"} {
 		for i := 0; i < trials; i++ {
-			all = append(all, c04LostWakeup(kind, i))
+			all = append(all, c04LostWakeup(kind, i, false))
+			all = append(all, c04LostWakeup(kind, i, true))
 			all = append(all, c04PlainBlock(kind, i))
 		}
 		for i := 0; i < trials; i++ {
